@@ -103,6 +103,9 @@ def _type_safe_is_in(a, b):
         type_b = list(type_b)[0]
         if not data_algebra.util.compatible_types([type_a, type_b]):
             raise TypeError(f"can't check for an {type_a} in a set of {type_b}'s")
+    if hasattr(a, "isin") and hasattr(getattr(a, "dtype", None), "na_value"):
+        # a nullable (masked) column: numpy can not compare its missing entries, which are in no set
+        return numpy.asarray(a.isin(b), dtype=bool)
     return numpy.isin(a, b)
 
 
